@@ -173,6 +173,7 @@ fn parse_value(t: &mut Toks, pool: &mut Vec<V>) -> V {
             }
             Value::Pair(Box::new(items.into_iter().collect::<GenericPair<V>>()))
         }
+        "T" => Value::Transformer(ruschm::parser::Transformer::Native(|d| Ok(d))),
         "P" => {
             // builtin procedure by name
             let name = unhex(t.next());
@@ -514,6 +515,26 @@ fn run_line(line: &str) -> String {
                 }
             }
             format!("OK T {} {} {}", ok as i32, depth, n)
+        }
+        "expect" => {
+            let which = t.next();
+            let v = parse_value(&mut t, &mut pool);
+            let r: Result<String, SchemeError> = match which {
+                "number" => v.expect_number().map(|n| show_number(&n)),
+                "integer" => v.expect_integer().map(|n| format!("I {}", n)),
+                "real" => v.expect_real().map(|n| format!("F {:08x}", n.to_bits())),
+                "vector" => v.expect_vector().map(|_| "V".to_string()),
+                "list" => v.expect_list().map(|_| "L".to_string()),
+                "string" => v.expect_string().map(|s| format!("S {}", hex(&s))),
+                "symbol" => v.expect_symbol().map(|s| format!("Y {}", hex(&s))),
+                "procedure" => v.expect_procedure().map(|_| "P".to_string()),
+                "boolean" => v.expect_boolean().map(|b| format!("B {}", b as i32)),
+                _ => panic!("expect"),
+            };
+            match r {
+                Ok(s) => format!("OK {}", s),
+                Err(e) => err_kind(&e),
+            }
         }
         "scope" => scope_cmd(&mut t),
         "c18sweep" => c18sweep(t.int()),
